@@ -10,6 +10,7 @@ from lib import *
 
 ENGINE = {
     "C08": "queue", "C09": "queue", "C10": "queue", "C11": "queue", "C15": "queue", "C16": "queue",
+    "C18": "holder",
     "C05": "writer", "C06": "writer", "C07": "writer", "C19": "writer",
 }
 LEVEL = {}
